@@ -173,7 +173,15 @@ func expectInput(stream []byte, late bool, shape string) streamInput {
 	return in
 }
 
+// after a few hangs the remaining cells are skipped: every hang costs a full watchdog period and
+// three concrete failing inputs are enough
+var expectHangs int
+
 func checkExpect(r *hk.Run, stream []byte, late bool, shape string) {
+	if expectHangs >= 3 {
+		r.Count("expect.skipped-after-3-hangs")
+		return
+	}
 	accepted, selfDel, complete, protoSwitch, leftover := refFinal(stream, "POST")
 	if accepted && protoSwitch {
 		r.Count("expect.skipped-101-switch")
@@ -202,6 +210,7 @@ func checkExpect(r *hk.Run, stream []byte, late bool, shape string) {
 		switch {
 		case fork.Hung:
 			field = "hang"
+			expectHangs++
 		case fork.O.propKey() == ref.O.propKey():
 			field = fmt.Sprintf("request-body(%d/%d)", fork.BodyGot, ref.BodyGot)
 		}
